@@ -21,7 +21,7 @@ func FuzzC18Module(f *testing.F)  { fuzzProp(f, "C18", "module", GenC18Module(),
 func FuzzC19Series(f *testing.F) {
 	fuzzProp(f, "C19", "series", genC19Series(200), CheckC19Series)
 }
-func FuzzC19Exp(f *testing.F) { fuzzProp(f, "C19", "aggregates", genC19Exp(), CheckC19Exp) }
+func FuzzC19Exp(f *testing.F) { fuzzProp(f, "C19", "aggregates", genC19ExpM(true), CheckC19Exp) }
 func FuzzC16Interleaved(f *testing.F) {
 	fuzzProp(f, "C16", "interleaved", GenC16Interleaved(), CheckC16Interleaved)
 }
